@@ -12,6 +12,7 @@ use rust_dsymbols::geometry::vec_matrix::{RowEchelonVecMatrix, VecMatrix};
 use serde_json::{json, Value};
 
 type F61 = PrimeResidueClass<61>;
+thread_local! { static PADIC: std::cell::RefCell<Vec<Value>> = std::cell::RefCell::new(Vec::new()); }
 thread_local! { static DEFERRED: std::cell::RefCell<Vec<(Value, BigInt)>> = std::cell::RefCell::new(Vec::new()); }
 
 /// emits the refused `modsolve` events with the common factor r of their determinants (see `emit_all`)
@@ -93,7 +94,10 @@ fn emit_all(sink: &mut Sink, m: &Vec<Vec<i64>>, b: &Vec<Vec<i64>>, src: &str) {
     }
     // --- p-adic solver (square systems)
     if n == c {
-        run!({ let mut e = base("modsolve", "padic"); e["b"] = json!(b); e }, || modular_solver::solve(&a, &bm), |e: &mut Value, v: Option<VecMatrix<BigRational>>| {
+        rust_dsymbols::verif::take();
+        rust_dsymbols::verif::set_limit(200);
+        rust_dsymbols::verif::record(true);
+        run!({ let mut e = base("modsolve", "padic"); e["b"] = json!(b); e }, || { let r = modular_solver::solve(&a, &bm); rust_dsymbols::verif::record(false); r }, |e: &mut Value, v: Option<VecMatrix<BigRational>>| {
             e["some"] = json!(v.is_some());
             match v {
                 Some(x) => e["out"] = jq(&x),
@@ -109,6 +113,22 @@ fn emit_all(sink: &mut Sink, m: &Vec<Vec<i64>>, b: &Vec<Vec<i64>>, src: &str) {
                 }
             }
         });
+        rust_dsymbols::verif::record(false);
+        rust_dsymbols::verif::set_limit(usize::MAX);
+        // hooked: the lifting steps of the p-adic solver (decimal strings -> sign/digit records) for Trace_C18e
+        let steps: Vec<Value> = rust_dsymbols::verif::take().iter().filter_map(|t| serde_json::from_str::<Value>(t).ok()).filter(|v| v["ev"] == "padic_step").collect();
+        if !steps.is_empty() {
+            fn bigs(v: &Value) -> Value {
+                match v {
+                    Value::String(t) => big(&t.parse::<BigInt>().unwrap()),
+                    Value::Array(a) => Value::Array(a.iter().map(bigs).collect()),
+                    x => x.clone(),
+                }
+            }
+            let st: Vec<Value> = steps.iter().map(|v| json!({"step": v["step"], "of": v["of"], "prime": bigs(&v["prime"]), "b": bigs(&v["b"]), "x": bigs(&v["x"]),
+                                                            "s": bigs(&v["s"]), "p": bigs(&v["p"]), "last": v["b_next"].is_null(), "b_next": if v["b_next"].is_null() { json!([]) } else { bigs(&v["b_next"]) }})).collect();
+            PADIC.with(|p| p.borrow_mut().push(json!({"ev": "padic_run", "a": m, "b": b, "src": src, "steps": st})));
+        }
     }
 }
 
@@ -227,7 +247,7 @@ pub fn replay(args: &[String]) {
         echelon_fixed(&mut sink, &m, &b);
         if let Some(es) = esink.as_mut() { echelon_runs(es, &m, "tlc"); }
     }
-    if let Some(es) = esink.as_mut() { es.flush(); }
+    if let Some(es) = esink.as_mut() { for e in PADIC.with(|p| std::mem::take(&mut *p.borrow_mut())) { es.emit(e); } es.flush(); }
     flush_deferred(&mut sink);
     sink.flush();
     println!("{}", json!({"cases": cases.len(), "events": sink.n}));
@@ -322,7 +342,7 @@ pub fn drive(args: &[String]) {
             sink.emit(e);
         }
     }
-    if let Some(es) = esink.as_mut() { es.flush(); }
+    if let Some(es) = esink.as_mut() { for e in PADIC.with(|p| std::mem::take(&mut *p.borrow_mut())) { es.emit(e); } es.flush(); }
     flush_deferred(&mut sink);
     sink.flush();
     println!("{}", json!({"events": sink.n}));
